@@ -133,10 +133,12 @@ Definition search (f : scalar -> bool) (d : node) : list string :=
   map fst (filter (fun e => f (snd e)) (flatten d)).
 
 (* the predicate families used by the correspondence *)
-Inductive spred := PEq (v : scalar) | PIsStr | PAll.
+Inductive spred := PEq (v : scalar) | PIsStr | PAll | PIsInt | PIsFlt.
 Definition spred_eval (p : spred) (v : scalar) : bool :=
   match p with
   | PEq w => scalar_eqb v w
   | PIsStr => match v with SStr _ => true | _ => false end
   | PAll => true
+  | PIsInt => match v with SInt _ => true | _ => false end
+  | PIsFlt => match v with SFlt _ => true | _ => false end
   end.
